@@ -638,7 +638,7 @@ func (s ELSSpec) Build() (model.ELS, *model.SignKey, *model.SignKey) {
 
 func ELSG(t *rapid.T, label string, sigs []int) ELSSpec {
 	if sigs == nil {
-		sigs = []int{11, 11, 7, 7, 0, 1, 2}
+		sigs = []int{11, 11, 7, 7, 0, 1, 2, 11, 7, 3, 4} // 3, 4: P-521 and RSA-2048 blinded-key fields (132 / 256 bytes)
 	}
 	s := ELSSpec{
 		SigType:   rapid.SampledFrom(sigs).Draw(t, label+"-sig"),
